@@ -111,7 +111,7 @@ pub fn generate(seed: u64, tier: Tier) -> History {
     let heavy = !big_library && !empty_start && swarm.chance(1, if tier == Tier::Thorough { 300 } else { 600 });
     let n_ops = if heavy { swarm.range(350, 420) } else if marathon && !big_library { swarm.range(120, 320) } else if big_library { swarm.range(1, 5) } else { swarm.range(1, max_ops) };
     let poison_pct = *swarm.pick(&[0u32, 0, 0, 4, 8]);
-    let restart_pct = *swarm.pick(&[0u32, 0, 5, 10, 25]);
+    let restart_pct = if heavy { 0 } else { *swarm.pick(&[0u32, 0, 5, 10, 25]) };
     let save_pct = *swarm.pick(&[0u32, 10, 30]);
     let apply_pct = *swarm.pick(&[0u32, 0, 10, 25]);
     // swarm: enabled mutation subset
@@ -251,7 +251,13 @@ pub fn generate(seed: u64, tier: Tier) -> History {
             class = "new_note".into();
         } else {
             let before = docs[&key].clone();
-            let m = *g.rng.pick(&enabled);
+            let mut m = *g.rng.pick(&enabled);
+            if heavy {
+                // a long session stays on a big note: no wholesale replacement or emptying
+                while ["fresh_document", "empty_note"].contains(&gen::MUTATIONS[m % gen::MUTATIONS.len()]) {
+                    m = g.rng.below(gen::MUTATIONS.len());
+                }
+            }
             let doc = docs.get_mut(&key).unwrap();
             let name = gen::mutate(&mut g, doc, m, &vtok);
             class = name.to_string();
